@@ -72,9 +72,12 @@ type ttEval struct {
 	outcome func(fn *FuncNode, ret *ast.ReturnStmt, results []ttVal) string
 	// onceLoops: range loops run exactly once instead of zero or one time.
 	onceLoops bool
-	outcomes  map[string]bool
-	steps     int
-	bad       string
+	// opaque: package-local functions that are not inlined (their results are unknown and
+	// a variable defined from them is an alias of the call)
+	opaque   func(*types.Func) bool
+	outcomes map[string]bool
+	steps    int
+	bad      string
 }
 
 // resolve follows aliases: an identifier bound to an expression yields that expression.
@@ -216,6 +219,17 @@ func (ev *ttEval) errVal(st *ttState, fn *FuncNode, e ast.Expr, depth int) ttVal
 			return ttU
 		}
 	}
+	if call, ok := e.(*ast.CallExpr); ok {
+		if rs := ev.call(st, fn, call, depth); len(rs) > 0 && len(rs[0]) > 0 {
+			out := rs[0][len(rs[0])-1]
+			for _, r := range rs[1:] {
+				if len(r) == 0 || r[len(r)-1] != out {
+					return ttU
+				}
+			}
+			return out
+		}
+	}
 	if certainErrLoose(fn, e) {
 		return ttT
 	}
@@ -239,7 +253,7 @@ func (ev *ttEval) call(st *ttState, fn *FuncNode, call *ast.CallExpr, depth int)
 		return nil
 	}
 	f := CalleeFunc(fn, call)
-	if f == nil {
+	if f == nil || (ev.opaque != nil && ev.opaque(f)) {
 		return nil
 	}
 	g := ev.p.ByObj[f]
@@ -653,10 +667,13 @@ func (ev *ttEval) stmt(st *ttState, fn *FuncNode, s ast.Stmt, depth int, onRetur
 func ttTable(p *Prog, fn *FuncNode, atoms []string,
 	atom func(ev *ttEval, st *ttState, fn *FuncNode, e ast.Expr) (string, bool, bool),
 	outcome func(fn *FuncNode, ret *ast.ReturnStmt, results []ttVal) string,
-	onceLoops bool) (map[int]map[string]bool, string) {
+	onceLoops bool, opaque ...func(*types.Func) bool) (map[int]map[string]bool, string) {
 	table := map[int]map[string]bool{}
 	for mask := 0; mask < 1<<len(atoms); mask++ {
 		ev := &ttEval{p: p, atom: atom, outcome: outcome, onceLoops: onceLoops, assign: map[string]bool{}, outcomes: map[string]bool{}}
+		if len(opaque) > 0 {
+			ev.opaque = opaque[0]
+		}
 		for i, a := range atoms {
 			ev.assign[a] = mask&(1<<i) != 0
 		}
